@@ -142,8 +142,7 @@ pub proof fn lemma_close_head(f0: ObjFiber, f1: ObjFiber, c: ObjUpvalue)
         f0.wf(), f0.open_list.len() > 0,
         f1.open_list == f0.open_list.subrange(1, f0.open_list.len() as int),
         f1.uvheap.cells == f0.uvheap.cells.insert(f0.open_list[0], c),
-        c.next == f0.uvheap.cells[f0.open_list[0]].next,
-        f1.open_upvalues == c.next, f1.self_id == f0.self_id,
+        f1.open_upvalues == f0.uvheap.cells[f0.open_list[0]].next, f1.self_id == f0.self_id,
     ensures
         f1.wf(),
         forall|i: int| 1 <= i < f0.open_list.len() ==> f1.uvheap.cells[#[trigger] f0.open_list[i]] == f0.uvheap.cells[f0.open_list[i]],
@@ -265,7 +264,7 @@ pub proof fn lemma_close_exit(f0: ObjFiber, f1: ObjFiber, k: int, index: usize)
 impl ObjFiber {
     // Closing from slot `index` upwards: exactly the cells whose slot is >= index leave the list, closed; the others
     // are untouched and stay linked.
-    //@fn file=yarel/src/object.rs path=ObjFiber::close_upvalues props=C06,C01
+    //@fn file=yarel/src/object.rs path=ObjFiber::close_upvalues props=C06,C01,C16
     //@  rewrite R19
     //@  subst "&self.stack[index] as *const _" => "stack_slot_addr(index)"
     //@  subst "self .open_upvalues .unwrap() .borrow()" => "self.uvheap.get(self.open_upvalues.unwrap())"
@@ -275,12 +274,13 @@ impl ObjFiber {
     //@  ensures forall|i: int| 0 <= i < old(self).open_list.len() && slot_at(old(self).uvheap.cells, old(self).open_list, i) >= index ==> final(self).uvheap.cells[#[trigger] old(self).open_list[i]].data is Closed && !final(self).open_list.contains(old(self).open_list[i])
     //@  ensures forall|i: int| 0 <= i < old(self).open_list.len() && slot_at(old(self).uvheap.cells, old(self).open_list, i) < index ==> final(self).uvheap.cells[#[trigger] old(self).open_list[i]] == old(self).uvheap.cells[old(self).open_list[i]] && final(self).open_list.contains(old(self).open_list[i])
     //@  ensures forall|i: int| 0 <= i < final(self).open_list.len() ==> #[trigger] slot_at(final(self).uvheap.cells, final(self).open_list, i) < index
+    //@  ensures @a_closed_cell_no_longer_links_to_the_open_list forall|i: int| 0 <= i < old(self).open_list.len() && slot_at(old(self).uvheap.cells, old(self).open_list, i) >= index ==> final(self).uvheap.cells[#[trigger] old(self).open_list[i]].next is None
     //@  at body.start let ghost mut k: int = 0; proof { lemma_distinct(*old(self)); }
     //@  loop 0 invariant 0 <= k <= old(self).open_list.len(), self.wf(), old(self).wf(), self.self_id == old(self).self_id
     //@  loop 0 invariant self.open_list =~= old(self).open_list.subrange(k, old(self).open_list.len() as int)
     //@  loop 0 invariant forall|v: usize| #[trigger] predicate.requires((v,))
     //@  loop 0 invariant forall|v: usize, r: bool| #[trigger] predicate.ensures((v,), r) ==> r == (v >= index)
-    //@  loop 0 invariant forall|i: int| 0 <= i < k ==> self.uvheap.cells[#[trigger] old(self).open_list[i]].data is Closed && slot_at(old(self).uvheap.cells, old(self).open_list, i) >= index
+    //@  loop 0 invariant forall|i: int| 0 <= i < k ==> self.uvheap.cells[#[trigger] old(self).open_list[i]].data is Closed && self.uvheap.cells[old(self).open_list[i]].next is None && slot_at(old(self).uvheap.cells, old(self).open_list, i) >= index
     //@  loop 0 invariant forall|i: int| k <= i < old(self).open_list.len() ==> self.uvheap.cells[#[trigger] old(self).open_list[i]] == old(self).uvheap.cells[old(self).open_list[i]]
     //@  loop 0 invariant self.open_list.len() > 0 ==> cell_ok(self.uvheap.cells, self.open_list, 0)
     //@  loop 0 decreases old(self).open_list.len() - k
